@@ -62,7 +62,7 @@ def compile_driver():
     return dest
 
 
-def run_batch(lines, timeout=600):
+def run_batch(lines, timeout=7200):
     """lines: [(type name, bytes)] -> list of ('OK', render, bytes, consumed) |
     ('ERR', message)."""
     classes = compile_driver()
